@@ -74,6 +74,10 @@ CHECKS = {
    technique="property-based testing over the public API (calls with strings generated near valid ones by character-level edits, and boundary numbers, each under catch_unwind) and over datagram sequences (targeted messages with hostile labels about the names the daemon is busy with, their byte-level mutations, and the C01 datagram families) against one real daemon in lock-step simulation, followed by virtual time for deferred work and a liveness oracle: no panic in the caller, daemon thread alive, status() Running, a fresh browse served, the service registered at the start still answered for",
    text="Exploration: 2.5e4 generated API histories of 1-7 calls (17 kinds of call; about half of all calls are refused with an error, the others accepted) and 2.5e4 generated histories of 1-11 datagrams on a daemon with a browse, a host name search and a registration running (a control registration whose label overflows 63 bytes when a conflict suffix is added, incl. multi-byte characters at the cut), each followed by 12 s of virtual time.",
    note="Trusted: simulation hooks, panic recorder. The crate is built with overflow checks and debug assertions on. get_ip_check_interval() (blocks the calling thread until the daemon answers) and the cfg(test)-only test_up/down_interface are not called."),
+ "C14": dict(engine=E3+"+E4", design="6/C14",
+   technique="exhaustive enumeration plus property-based generation of command batches with a shutdown at every queue position (lock-step simulation: the batch enters the daemon's queue in order, loop iterations run only where the case says), judged by what every call returned and what every reply channel held in the end while the handle clones are still alive; and randomized real-thread stress (2-4 client threads issuing generated calls on clones of a real daemon while another thread shuts it down) with a watchdog for blocked calls",
+   text="Exploration: all 3554 batches with the shutdown at every position among 0-2 other commands of 12 kinds x every subset of loop iterations; 4e4 generated batches of up to 10 commands of 13 kinds from three clones (shutdown positions 0-8+, further shutdowns, 1-2 interfaces); 1.5e3 real-thread runs, of which ~95 % had the shutdown fall among the calls. Judged: every call returns an error or its reply channel yields or is closed; DaemonShutdown only after the daemon ran; Shutdown reported exactly once; SearchStopped once and last on every open browse / host name search; a goodbye for the announced service; nothing sent after the exit; afterwards every call on every clone fails with DaemonShutdown and status() says Shutdown.",
+   note="Trusted: simulation hooks; the real-thread part depends on OS scheduling (replay of its cases is best effort). A cache-only browse may see two SearchStopped events (its own and the shutdown's), as the C13 statement allows."),
 }
 
 def check_entry(pid, c):
